@@ -30,9 +30,8 @@
      invocation chain mutates exactly one variable, whose value is the `cur` argument of `invoke`.
    * rustc facts used: an unsuffixed integer literal handed to `IntoDeserializer::into_deserializer`
      is typed `i32` (inference fallback); a positive literal out of range is a compile error
-     (deny-by-default lint `overflowing_literals`, reported at the user's token); for a NEGATED
-     literal `(-$v)` the lint is attributed to the expression built inside the external macro
-     and is therefore suppressed: the value wraps (observed on rustc 1.95: see Props/C19.v).
+     (deny-by-default lint `overflowing_literals`, reported at the user's token).  A NEGATED
+     literal `(-$v)` goes through `macros::number(-$v)` and is an i64 (see `neg_lit_value`).
      `concat!` prints an integer literal by VALUE (`05` gives "5") and a float literal by its
      symbol.  `stringify!` gives the source text of a token.
    * A float literal denotes the exact decimal it spells (Model/Numbers.v `fdec_of_text`); the
@@ -271,6 +270,7 @@ Inductive body : Set :=
 | BValTable (q : list tpl)                  (* { let mut table = Value::Table(Table::new()); toml_internal!(q); table } *)
 | BValArray (q : list tpl)                  (* { let mut array = Array::new(); toml_internal!(q); Value::Array(array) } *)
 | BValConst (f : fval)                      (* Value::Float(NAN.copysign(..)) / INFINITY / NEG_INFINITY *)
+| BValNeg                                   (* $crate::macros::number(-$v) *)
 | BValOther.                                (* <Value as Deserialize>::deserialize(into_deserializer($v)).unwrap() *)
 
 Record rule : Set := mkRule { r_head : list pat; r_body : body }.
@@ -386,6 +386,7 @@ Definition rules_path_value : list rule :=
     mkRule (pstate id_value ++ [PGroup DParen [P c_minus; PIdent id_inf]]) (BValConst (FInf true));
     mkRule (pstate id_value ++ [PGroup DParen [PIdent id_inf]]) (BValConst (FInf false));
     mkRule (pstate id_value ++ [PIdent id_inf]) (BValConst (FInf false));
+    mkRule (pstate id_value ++ [PGroup DParen [P c_minus; V Vv]]) BValNeg;
     mkRule (pstate id_value ++ [V Vv]) BValOther ].
 
 (* ---- @table ---- *)
@@ -691,6 +692,29 @@ Definition rust_expr_value (v : tt) : eres mval :=
   | _ => EStuck
   end.
 
+(* $crate::macros::number(-$v): `Number` is implemented for i64 and f64 only, so an unsuffixed integer
+   literal is inferred as i64 and a float literal as f64.  `-9223372036854775808` is i64::MIN (rustc reads a
+   negated literal as one constant); a larger magnitude wraps (the overflowing_literals lint is attributed to
+   the macro's own `-$v` and suppressed; observed on rustc 1.95).  Anything that is not a literal is outside
+   the fragment modelled (`-x` for a variable x compiles iff x is an i64 or an f64). *)
+Definition wrap_i64 (z : Z) : Z := ((z + 9223372036854775808) mod 18446744073709551616 - 9223372036854775808)%Z.
+Definition neg_lit_value (l : lit) : eres mval :=
+  match l with
+  | LStr _ => ECompile
+  | LInt s =>
+    match rust_int_lit s with
+    | Some (v, []) => EOk (MInt (wrap_i64 (- Z.of_N v)))
+    | _ => ECompile
+    end
+  | LFloat s => float_lit_value true s
+  end.
+Definition rust_neg_value (v : tt) : eres mval :=
+  match v with
+  | TLit l => neg_lit_value l
+  | TIdent s => if bytes_eqb s id_true || bytes_eqb s id_false then ECompile else EStuck
+  | _ => EStuck
+  end.
+
 Definition state_toks (s : bytes) : list tt := [TPunct c_at; TIdent s].
 
 Fixpoint invoke (fuel : nat) (cur : mval) (input : list tt) {struct fuel} : eres mval :=
@@ -753,6 +777,7 @@ Fixpoint invoke (fuel : nat) (cur : mval) (input : list tt) {struct fuel} : eres
       | BValTable q => invoke f (MTab []) (transcribe_seq q e)
       | BValArray q => invoke f (MArr []) (transcribe_seq q e)
       | BValConst c => EOk (MFloat c)
+      | BValNeg => v <== env_tt Vv e ;; rust_neg_value v
       | BValOther => v <== env_tt Vv e ;; rust_expr_value v
       | BPathIdent => EStuck
       | BPathQuoted => EStuck
